@@ -833,3 +833,98 @@ func c16R14(c *Ctx, r *Report) {
 	r.Note("C16.R14 scanned %d C functions; (group, scale) flush pairs found: %d (expected on the pinned tree: 0)", n, pairs)
 	r.OK(rule, "runtime/core", "grouped-digit accumulation scanned", "-", "scanned")
 }
+
+// ---- C18.R16: a union passed by value is the callee's own copy --------------------------------------------------
+
+func init() {
+	lateInits = append(lateInits, func() {
+		props["C18"].Quick = append(props["C18"].Quick, c18R16)
+		props["C06"].Quick = append(props["C06"].Quick, c18R16)
+		props["C18"].Explanation += " (R16) buildFuncBody copies a by-value union parameter into storage of the callee (memcpy from the incoming pointer) and registers a slot for it: fields of a narrowed variant are addressed inside the union, so without the copy the callee's stores land in the caller's variable."
+		props["C11"].Explanation += " (R16b) a plain value stored into an optional place is wrapped (OptionalSome) after it was converted to the payload type: payload and presence flag are stored together (`if a != none { b = a; }` with both i32?)."
+		props["C11"].Quick = append(props["C11"].Quick, c11R16b)
+	})
+}
+
+func c18R16(c *Ctx, r *Report) {
+	const rule = "C18.R16"
+	r.Describe(rule, "mir/gen.buildFuncBody: in the loop that fills b.paramSlots a branch on the parameter type being a *types.UnionType calls emitMemcpy with the parameter's incoming value as source and assigns b.paramSlots for the parameter")
+	fn := c.LookupFn(pkgMIRGen, "(*functionBuilder).buildFuncBody")
+	if !r.Anchor(rule, fn != nil && fn.Decl.Body != nil, "mir/gen.buildFuncBody") {
+		return
+	}
+	info := fn.Info()
+	found := false
+	var pos token.Pos = fn.Decl.Pos()
+	ast.Inspect(fn.Decl.Body, func(x ast.Node) bool {
+		ifs, ok := x.(*ast.IfStmt)
+		if !ok || ifs.Init == nil {
+			return true
+		}
+		init, ok := ifs.Init.(*ast.AssignStmt)
+		if !ok || len(init.Rhs) != 1 {
+			return true
+		}
+		ta, ok := ast.Unparen(init.Rhs[0]).(*ast.TypeAssertExpr)
+		if !ok || ta.Type == nil {
+			return true
+		}
+		if nt := namedOf(info.TypeOf(ta.Type)); nt == nil || nt.Obj().Name() != "UnionType" {
+			return true
+		}
+		if _, negated := ast.Unparen(ifs.Cond).(*ast.UnaryExpr); negated {
+			return true
+		}
+		copies, slots := false, false
+		ast.Inspect(ifs.Body, func(y ast.Node) bool {
+			switch z := y.(type) {
+			case *ast.CallExpr:
+				if f := callee(info, z); f != nil && f.Name() == "emitMemcpy" && len(z.Args) >= 2 && strings.HasSuffix(exprStr(z.Args[1]), ".ID") {
+					copies = true
+				}
+			case *ast.AssignStmt:
+				for _, l := range z.Lhs {
+					if ix, ok := ast.Unparen(l).(*ast.IndexExpr); ok {
+						if f := fieldOf(info, ix.X); f != nil && f.Name() == "paramSlots" {
+							slots = true
+						}
+					}
+				}
+			}
+			return true
+		})
+		if copies && slots {
+			found, pos = true, ifs.Pos()
+		}
+		return true
+	})
+	r.Check(found, rule, fn.Name(), "a by-value union parameter is copied on entry", c.pos(pos),
+		"a union parameter is used through the pointer it arrives as, which is the caller's storage: `fn poke(u: U) -> i32 { if u is A { u.X = 99; return u.X; } return 0; }` called with a constant changes the constant (prints 99 and 99)")
+}
+
+func c11R16b(c *Ctx, r *Report) {
+	const rule = "C11.R16b"
+	r.Describe(rule, "mir/gen.coerceValueForAssign: the branch that converts a non-optional value for an optional destination builds a mir.OptionalSome after the call of widenNumericValue")
+	fn := c.LookupFn(pkgMIRGen, "(*functionBuilder).coerceValueForAssign")
+	widen := c.LookupFn(pkgMIRGen, "(*functionBuilder).widenNumericValue")
+	if !r.Anchor(rule, fn != nil && widen != nil && fn.Decl.Body != nil, "mir/gen coerceValueForAssign / widenNumericValue") {
+		return
+	}
+	info := fn.Info()
+	var widenPos, somePos token.Pos
+	ast.Inspect(fn.Decl.Body, func(x ast.Node) bool {
+		switch y := x.(type) {
+		case *ast.CallExpr:
+			if isCallTo(info, y, widen.Obj) && widenPos == token.NoPos {
+				widenPos = y.Pos()
+			}
+		case *ast.CompositeLit:
+			if isNamed(info.TypeOf(y), Mod+"/"+pkgMIR, "OptionalSome") {
+				somePos = y.Pos()
+			}
+		}
+		return true
+	})
+	r.Check(widenPos != token.NoPos && somePos > widenPos, rule, fn.Name(), "a value for an optional place is wrapped with its presence flag", c.pos(fn.Decl.Pos()),
+		"a plain value assigned to an optional place is stored as the payload only: `let a: i32? = 5; let b: i32? = none; if a != none { b = a; } io::Println(b ?? -1);` prints -1, and a struct assigned to a narrowed `P?` is stored as its address")
+}
